@@ -27,7 +27,10 @@ RULE = ('every pair (left, right) of tables whose key vectors range over ALL tup
         'compound key (2 columns over {None,i1}, by argument and natural) / compound lkey,rkey with swapped '
         'right columns / ragged rows (full, short before the key, short after the key, long, empty; not for '
         'antijoin, which does not square up) x missing / lprefix,rprefix / missing=text / presorted=True on '
-        'inputs already in reference key order / tuple-VALUED cells in a single key field (K4 + (i1,), (i1,i2), '
+        'inputs already in reference key order / buffersize in {1,2,3} not larger than the bigger table (the internal '
+        'sorts spill to chunk files; left <=2 rows, right <=3 rows over {None,i1,s1}, duplicate keys in different '
+        'chunks differing in their id field: lookupjoin must still take the FIRST partner in right-table order) / '
+        'tuple-VALUED cells in a single key field (K4 + (i1,), (i1,i2), '
         '(None,s1), (): all vectors <=2, thorough also <=3 over {i1,(i1,),(i1,i2),()}; key=, missing=text, and '
         'lkey/rkey by name and by index with the key in different columns) / presorted=True x ragged rows (full, short after the key, long: the '
         'key cell exists, key sequence in reference order) x missing None/text / right table with key fields only / '
@@ -138,6 +141,8 @@ def items(tier, seed):
     out = []
     for name, v in _S['space'].items():
         per_left = len(v['R']) * len(v['kw']) * len(v['ops'])
+        if name == 'buffersize':
+            per_left *= 8         # chunked sorts write temp files: ~1-5 ms instead of ~0.2 ms per join
         size = max(1, TARGET // max(1, per_left))
         for lo in range(0, len(v['L']), size):
             out.append(('join', name, lo, min(len(v['L']), lo + size)))
@@ -220,6 +225,8 @@ def replay(case):
 
 
 def _do_pair(acc, name, left, right, kw, ops, allkw):
+    if kw.get('buffersize') and kw['buffersize'] > max(len(left), len(right)) - 1:
+        return        # larger than both tables: nothing spills, same execution as the default call
     nt = J.nontrivial_pair(left, right, kw)
     for op in ops:
         kw2 = kw
